@@ -69,9 +69,9 @@ def check(rep, tier):
         tp, stored = [], []
         if store is not None:
             stored = [int(i) for i in np.nonzero(np.asarray(S._storageMask))[0]]
-            if tdf is None:
+            if tdf is None and stored:
                 rep.violation("traj-missing", "no trajectory table although vials are recorded", dict(config=cfg, storeStates=store))
-            else:
+            elif tdf is not None:
                 tcol = {float(t): k for k, t in enumerate(np.arange(r["nsteps"]) * S.dt)}
                 pos = {v: k for k, v in enumerate(stored)}
                 for _, row in tdf.iterrows():
